@@ -120,7 +120,7 @@ CLAIMED = {
   "design_ref": "DESIGN.md section 5 (C17)",
  },
  "C19": {
-  "text": "TLC explores the DPointer state machine (push_key/push_index over the linked-list representation of src/value.rs) exhaustively for all paths of <= 6 (quick) / 8 (thorough) steps and checks the refinement invariant to the abstract path; every explored path is replayed through the real ValuePointerRef and the four observations after every push are validated against the same TLA+ definitions by TLC trace validation, plus seeded random long paths.",
+  "text": "TLC explores the DPointer state machine (push_key/push_index/return over the linked-list representation of src/value.rs) exhaustively for all paths of <= 6 (quick) / 8 (thorough) steps and checks the refinement invariant to the abstract path and the persistence action property; every explored path is replayed through the real ValuePointerRef and the four observations after every push and after every return are validated against the same TLA+ definitions by TLC trace validation, plus seeded random long paths and random walks over trees of locations (siblings sharing a prefix).",
   "note": "Bounded: paths of <= 6/8 steps exhaustively, random paths up to 40/200 steps. Trusted: TLC, the Json module, derived Debug of the owned pointer components.",
   "technique": "TLA+ state machine + TLC exhaustive model checking; spec->impl replay and impl->spec trace validation",
   "design_ref": "DESIGN.md section 5 (C19)",
